@@ -446,7 +446,7 @@ theorem LeafPlaced.end_le {env : Env} {σ σ' : SS} {t : Uid} {m v : Time} {d : 
 
 /-- dates a placement writes: both are set, the end respects the deadline, and for a leaf or milestone it does
     not exceed `minSucc` -/
-theorem bwdPlace_dates (env : Env) (σ σ' : SS) (t : Uid) (m v : Time) (hb : Base env σ)
+theorem bwdPlace_dates_c09 (env : Env) (σ σ' : SS) (t : Uid) (m v : Time) (hb : Base env σ)
     (hmem : (env.info t).member = true) (ht : t ∉ σ.done) (hk : ∀ c ∈ (env.info t).children, c ∈ σ.done)
     (hmb : m ≤ env.bound) (hvm : v ≤ m) (h : bwdPlace env σ t m v = .ok σ') :
     ∃ s e, (σ'.f t).start = some s ∧ (σ'.f t).end_ = some e ∧ e ≤ env.bound ∧
@@ -511,7 +511,7 @@ theorem Base.place {env : Env} {σ σ' : SS} {t : Uid} {m v : Time} (hb : Base e
     · rw [hext.frozen x hx]; exact hb.dates x hx
     · simp only [List.mem_singleton] at hx
       subst hx
-      obtain ⟨s, e, h1, h2, h3, _⟩ := bwdPlace_dates env σ σ' x m v hb hmem ht hk hmb hvm h
+      obtain ⟨s, e, h1, h2, h3, _⟩ := bwdPlace_dates_c09 env σ σ' x m v hb hmem ht hk hmb hvm h
       exact ⟨s, e, h1, h2, h3⟩
 
 /-! ### from `backwardCalc` to the final pass state -/
@@ -1019,7 +1019,7 @@ theorem DepInv.place {env : Env} {σ1 σ σ' : SS} {t : Uid} {m : Time} (hb : Ba
     have hs2 : s ∈ σ.done := he1.done_sub hs1
     obtain ⟨st, _, hst, _⟩ := hb.dates s hs2
     have hst1 : (σ1.f s).start = some st := by rw [← he1.frozen s hs1]; exact hst
-    obtain ⟨_, e, _, hee, _, hle⟩ := bwdPlace_dates env σ σ' p m _ hb hmem ht hk hmb (minStarts_le _ _ _) h
+    obtain ⟨_, e, _, hee, _, hle⟩ := bwdPlace_dates_c09 env σ σ' p m _ hb hmem ht hk hmb (minStarts_le _ _ _) h
     refine ⟨hext.done_sub hs2, e, st, hee, by rw [hext.frozen s hs2]; exact hst, ?_⟩
     exact Rat.le_trans (hle (Or.inl hleaf)) (minStarts_le_start σ1 _ m s st hs hst1)
 
